@@ -1102,9 +1102,11 @@ class DocutilsRenderer(RendererProtocol):
             token, ref_node, ("class", "id", "reftitle"), aliases={"title": "reftitle"}
         )
         # markdown-it percent-encodes the destination, target names are not encoded
-        # (SphinxRenderer.render_link_unknown does the same for ``reftarget``)
-        ref_node["refname"] = self.md.normalizeLinkText(
-            cast(str, token.attrGet("href") or "")
+        # (SphinxRenderer.render_link_unknown does the same for ``reftarget``);
+        # docutils looks a refname up in the normalised names (lower case,
+        # single spaces) under which all targets are registered
+        ref_node["refname"] = nodes.fully_normalize_name(
+            self.md.normalizeLinkText(cast(str, token.attrGet("href") or ""))
         )
         self.document.note_refname(ref_node)
         with self.current_node_context(ref_node, append=True):
